@@ -1,175 +1,97 @@
 /-
-C17 property theorems.  Core Lean only (List.Perm is in core).
-Full-strength statement: the map-reduce result is independent of the grouping of shards onto
-nodes and of the arrival order of results, for every reducer; and Min/Max carry the TOTAL count.
+C17 property theorems (only).  Helper lemmas: Props0 (generic fold lemma, reducer laws), Lemmas.
+
+Property C17: "the result is the same whichever node coordinates, however shards are grouped onto
+nodes, and in whatever order shard results arrive …; the count returned with a Min or Max value
+that several shards share is the total across those shards."
+
+Model: `mapReduce f nil groups` (Model.lean) = every node folds its shard results from nil in
+arrival order, the coordinator folds the node results from nil in arrival order.
 -/
-import PV.C17.Model
-import PV.C17.Spec
+import PV.C17.Lemmas
 namespace PV.C17
 open List
 
-/-! ### Generic lemma: a commutative, associative reducer with identity on a closed domain. -/
-
-structure Laws {α : Type} (D : α → Prop) (f : α → α → α) (e : α) : Prop where
-  closed : ∀ a b, D a → D b → D (f a b)
-  dnil : D e
-  comm : ∀ a b, D a → D b → f a b = f b a
-  assoc : ∀ a b c, D a → D b → D c → f (f a b) c = f a (f b c)
-  idl : ∀ a, D a → f e a = a
-
-theorem Laws.idr {α : Type} {D : α → Prop} {f : α → α → α} {e : α} (L : Laws D f e)
-    (a : α) (ha : D a) : f a e = a := by
-  rw [L.comm a e ha L.dnil]; exact L.idl a ha
-
-theorem foldl_closed {α : Type} {D : α → Prop} {f : α → α → α} {e : α} (L : Laws D f e)
-    (l : List α) (a : α) (ha : D a) (hl : ∀ x ∈ l, D x) : D (l.foldl f a) := by
-  induction l generalizing a with
-  | nil => simpa
-  | cons x xs ih =>
-    simp only [foldl_cons]
-    exact ih _ (L.closed _ _ ha (hl x (by simp))) (fun y hy => hl y (by simp [hy]))
-
-/-- Pull the accumulator out of a fold. -/
-theorem foldl_acc {α : Type} {D : α → Prop} {f : α → α → α} {e : α} (L : Laws D f e)
-    (l : List α) (a : α) (ha : D a) (hl : ∀ x ∈ l, D x) :
-    l.foldl f a = f a (l.foldl f e) := by
-  induction l generalizing a with
-  | nil => simp [L.idr a ha]
-  | cons x xs ih =>
-    have hx : D x := hl x (by simp)
-    have hxs : ∀ y ∈ xs, D y := fun y hy => hl y (by simp [hy])
-    simp only [foldl_cons]
-    rw [ih (f a x) (L.closed _ _ ha hx) hxs, ih (f e x) (L.closed _ _ L.dnil hx) hxs]
-    rw [L.idl x hx, L.assoc a x _ ha hx (foldl_closed L xs e L.dnil hxs)]
-
-/-- Arrival order does not matter. -/
-theorem C17_fold_perm {α : Type} {D : α → Prop} {f : α → α → α} {e : α} (L : Laws D f e)
-    {l₁ l₂ : List α} (p : l₁.Perm l₂) (h : ∀ x ∈ l₁, D x) :
-    reduceAll f e l₁ = reduceAll f e l₂ := by
-  unfold reduceAll
-  suffices H : ∀ a, D a → l₁.foldl f a = l₂.foldl f a from H e L.dnil
-  induction p with
-  | nil => intro a _; rfl
-  | cons x _ ih =>
-    intro a ha
-    simp only [foldl_cons]
-    exact ih (fun y hy => h y (by simp [hy])) _ (L.closed _ _ ha (h x (by simp)))
-  | swap x y l =>
-    intro a ha
-    simp only [foldl_cons]
-    have hx : D x := h x (by simp)
-    have hy : D y := h y (by simp)
-    rw [L.assoc a y x ha hy hx, L.comm y x hy hx, ← L.assoc a x y ha hx hy]
-  | trans p₁ _ ih₁ ih₂ =>
-    intro a ha
-    rw [ih₁ h a ha, ih₂ (fun y hy => h y (p₁.mem_iff.mpr hy)) a ha]
-
-/-- Grouping shards onto nodes does not matter. -/
-theorem C17_group {α : Type} {D : α → Prop} {f : α → α → α} {e : α} (L : Laws D f e)
-    (groups : List (List α)) (h : ∀ g ∈ groups, ∀ x ∈ g, D x) :
-    mapReduce f e groups = reduceAll f e groups.flatten := by
-  unfold mapReduce reduceAll
-  suffices H : ∀ a, D a →
-      (groups.map (fun g => g.foldl f e)).foldl f a = groups.flatten.foldl f a from H e L.dnil
-  induction groups with
-  | nil => intro a _; rfl
-  | cons g gs ih =>
-    intro a ha
-    have hg : ∀ x ∈ g, D x := h g (by simp)
-    simp only [map_cons, foldl_cons, flatten_cons, foldl_append]
-    rw [← foldl_acc L g a ha hg]
-    exact ih (fun g' hg' => h g' (by simp [hg'])) _ (foldl_closed L g a ha hg)
-
-/-- The property for one reducer: any two executions (groupings + arrival orders) over the same
-multiset of per-shard results agree. -/
-theorem C17_placement_order_free {α : Type} {D : α → Prop} {f : α → α → α} {e : α}
+/-- Generic statement of the property for a reducer satisfying `Laws` on the domain of shard
+results: two executions over the same multiset of per-shard results (any grouping onto nodes,
+any arrival orders) return the same value. -/
+theorem C17_order_and_placement_free {α : Type} {D : α → Prop} {f : α → α → α} {e : α}
     (L : Laws D f e) (g₁ g₂ : List (List α)) (p : g₁.flatten.Perm g₂.flatten)
-    (h : ∀ g ∈ g₁, ∀ x ∈ g, D x) : mapReduce f e g₁ = mapReduce f e g₂ := by
-  have h1 : ∀ x ∈ g₁.flatten, D x := by
+    (h : ∀ g ∈ g₁, ∀ x ∈ g, D x) : mapReduce f e g₁ = mapReduce f e g₂ :=
+  C17_placement_order_free L g₁ g₂ p h
+
+/-- Sum. -/
+theorem C17_sum (g₁ g₂ : List (List ValCount)) (p : g₁.flatten.Perm g₂.flatten) :
+    mapReduce ValCount.add .zero g₁ = mapReduce ValCount.add .zero g₂ :=
+  C17_placement_order_free C17_add_laws g₁ g₂ p (fun _ _ _ _ => trivial)
+
+/-- Min, Max: order/placement free on valid shard results. -/
+theorem C17_min (g₁ g₂ : List (List ValCount)) (p : g₁.flatten.Perm g₂.flatten)
+    (h : ∀ g ∈ g₁, ∀ x ∈ g, VCValid x) :
+    mapReduce ValCount.smaller .zero g₁ = mapReduce ValCount.smaller .zero g₂ :=
+  C17_placement_order_free C17_smaller_laws g₁ g₂ p h
+
+theorem C17_max (g₁ g₂ : List (List ValCount)) (p : g₁.flatten.Perm g₂.flatten)
+    (h : ∀ g ∈ g₁, ∀ x ∈ g, VCValid x) :
+    mapReduce ValCount.larger .zero g₁ = mapReduce ValCount.larger .zero g₂ :=
+  C17_placement_order_free C17_larger_laws g₁ g₂ p h
+
+/-- MinRow / MaxRow / Count. -/
+theorem C17_minRow (g₁ g₂ : List (List Pair)) (p : g₁.flatten.Perm g₂.flatten)
+    (h : ∀ g ∈ g₁, ∀ x ∈ g, PairValid x) :
+    mapReduce minRowReduce .zero g₁ = mapReduce minRowReduce .zero g₂ :=
+  C17_placement_order_free C17_minRow_laws g₁ g₂ p h
+
+theorem C17_maxRow (g₁ g₂ : List (List Pair)) (p : g₁.flatten.Perm g₂.flatten)
+    (h : ∀ g ∈ g₁, ∀ x ∈ g, PairValid x) :
+    mapReduce maxRowReduce .zero g₁ = mapReduce maxRowReduce .zero g₂ :=
+  C17_placement_order_free C17_maxRow_laws g₁ g₂ p h
+
+theorem C17_count (g₁ g₂ : List (List Nat)) (p : g₁.flatten.Perm g₂.flatten) :
+    mapReduce (· + ·) 0 g₁ = mapReduce (· + ·) 0 g₂ :=
+  C17_placement_order_free C17_count_laws g₁ g₂ p (fun _ _ _ _ => trivial)
+
+/-- "The count returned with a Min value that several shards share is the total across those
+shards": whatever the grouping and arrival order, Min returns the smallest value held by any
+shard with at least one value, together with the SUM of the counts of the shards holding it. -/
+theorem C17_min_total (groups : List (List ValCount)) (h : ∀ g ∈ groups, ∀ x ∈ g, VCValid x) :
+    mapReduce ValCount.smaller .zero groups = Spec.min groups.flatten := by
+  rw [C17_group C17_smaller_laws groups h]
+  have hv : ∀ x ∈ groups.flatten, VCValid x := by
     intro x hx; rcases mem_flatten.mp hx with ⟨g, hg, hxg⟩; exact h g hg x hxg
-  have h2 : ∀ g ∈ g₂, ∀ x ∈ g, D x := by
-    intro g hg x hx
-    exact h1 x (p.mem_iff.mpr (mem_flatten.mpr ⟨g, hg, hx⟩))
-  rw [C17_group L g₁ h, C17_group L g₂ h2]
-  exact C17_fold_perm L p h1
+  generalize groups.flatten = l at hv
+  induction l with
+  | nil => simp [reduceAll, Spec.min, Spec.live, Spec.minVal]
+  | cons x xs ih =>
+    have hx := hv x (by simp)
+    have hxs : ∀ y ∈ xs, VCValid y := fun y hy => hv y (by simp [hy])
+    rw [reduceAll_cons C17_smaller_laws x xs hx hxs, ih hxs, spec_min_cons x xs hx]
 
-/-! ### Sum -/
+theorem C17_max_total (groups : List (List ValCount)) (h : ∀ g ∈ groups, ∀ x ∈ g, VCValid x) :
+    mapReduce ValCount.larger .zero groups = Spec.max groups.flatten := by
+  rw [C17_group C17_larger_laws groups h]
+  have hv : ∀ x ∈ groups.flatten, VCValid x := by
+    intro x hx; rcases mem_flatten.mp hx with ⟨g, hg, hxg⟩; exact h g hg x hxg
+  generalize groups.flatten = l at hv
+  induction l with
+  | nil => simp [reduceAll, Spec.max, Spec.live, Spec.maxVal]
+  | cons x xs ih =>
+    have hx := hv x (by simp)
+    have hxs : ∀ y ∈ xs, VCValid y := fun y hy => hv y (by simp [hy])
+    rw [reduceAll_cons C17_larger_laws x xs hx hxs, ih hxs, spec_max_cons x xs hx]
 
-theorem C17_add_laws : Laws (fun _ => True) ValCount.add ValCount.zero where
-  closed := fun _ _ _ _ => trivial
-  dnil := trivial
-  comm := by intro a b _ _; simp [ValCount.add, Int.add_comm]
-  assoc := by intro a b c _ _ _; simp [ValCount.add, Int.add_assoc]
-  idl := by intro a _; cases a; simp [ValCount.add, ValCount.zero]
+/-! Non-vacuity: concrete shard results satisfy the hypotheses, with a shared extreme. -/
+example : (∀ g ∈ [[(⟨5, 2⟩ : ValCount), ⟨7, 1⟩], [⟨5, 3⟩, ⟨0, 0⟩]], ∀ x ∈ g, VCValid x) ∧
+    mapReduce ValCount.smaller .zero [[(⟨5, 2⟩ : ValCount), ⟨7, 1⟩], [⟨5, 3⟩, ⟨0, 0⟩]] = ⟨5, 5⟩ := by
+  decide
 
-/-! ### Min / Max.  Domain: what a shard can return (`count ≥ 0`, and the zero value when empty). -/
+/-- Regression witness for the defect repaired by "fix: Min/Max reduce sums the counts …":
+the pre-fix reducer (ties keep the receiver) is not commutative, so the result depended on the
+arrival order. -/
+def smallerPreFix (vc other : ValCount) : ValCount :=
+  if vc.count = 0 ∨ (other.val < vc.val ∧ other.count > 0) then other else ⟨vc.val, vc.count⟩
 
-def VCValid (v : ValCount) : Prop := v.count ≥ 0 ∧ (v.count = 0 → v.val = 0)
-
-instance (v : ValCount) : Decidable (VCValid v) := by unfold VCValid; exact inferInstance
-
-theorem C17_smaller_laws : Laws VCValid ValCount.smaller ValCount.zero where
-  closed := by
-    intro a b ha hb; cases a; cases b
-    simp only [VCValid, ValCount.smaller] at *; grind
-  dnil := by simp [VCValid, ValCount.zero]
-  comm := by
-    intro a b ha hb; cases a; cases b
-    simp only [VCValid, ValCount.smaller] at *; grind
-  assoc := by
-    intro a b c ha hb hc; cases a; cases b; cases c
-    simp only [VCValid, ValCount.smaller] at *; grind
-  idl := by intro a _; simp [ValCount.smaller, ValCount.zero]
-
-theorem C17_larger_laws : Laws VCValid ValCount.larger ValCount.zero where
-  closed := by
-    intro a b ha hb; cases a; cases b
-    simp only [VCValid, ValCount.larger] at *; grind
-  dnil := by simp [VCValid, ValCount.zero]
-  comm := by
-    intro a b ha hb; cases a; cases b
-    simp only [VCValid, ValCount.larger] at *; grind
-  assoc := by
-    intro a b c ha hb hc; cases a; cases b; cases c
-    simp only [VCValid, ValCount.larger] at *; grind
-  idl := by intro a _; simp [ValCount.larger, ValCount.zero]
-
-/-! ### MinRow / MaxRow pair reducers.  Domain: `count = 0 → id = 0` (the zero Pair). -/
-
-def PairValid (p : Pair) : Prop := p.count = 0 → p.id = 0
-
-theorem C17_minRow_laws : Laws PairValid minRowReduce Pair.zero where
-  closed := by
-    intro a b ha hb; cases a; cases b
-    simp only [PairValid, minRowReduce] at *; grind
-  dnil := by simp [PairValid, Pair.zero]
-  comm := by
-    intro a b ha hb; cases a; cases b
-    simp only [PairValid, minRowReduce] at *; grind
-  assoc := by
-    intro a b c ha hb hc; cases a; cases b; cases c
-    simp only [PairValid, minRowReduce] at *; grind
-  idl := by intro a _; simp [minRowReduce, Pair.zero]
-
-theorem C17_maxRow_laws : Laws PairValid maxRowReduce Pair.zero where
-  closed := by
-    intro a b ha hb; cases a; cases b
-    simp only [PairValid, maxRowReduce] at *; grind
-  dnil := by simp [PairValid, Pair.zero]
-  comm := by
-    intro a b ha hb; cases a; cases b
-    simp only [PairValid, maxRowReduce] at *; grind
-  assoc := by
-    intro a b c ha hb hc; cases a; cases b; cases c
-    simp only [PairValid, maxRowReduce] at *; grind
-  idl := by intro a _; simp [maxRowReduce, Pair.zero]
-
-/-! ### Count (uint64 +) -/
-theorem C17_count_laws : Laws (fun _ : Nat => True) (· + ·) 0 where
-  closed := fun _ _ _ _ => trivial
-  dnil := trivial
-  comm := fun a b _ _ => Nat.add_comm a b
-  assoc := fun a b c _ _ _ => Nat.add_assoc a b c
-  idl := fun a _ => Nat.zero_add a
+theorem C17_prefix_smaller_order_dependent_witness :
+    smallerPreFix ⟨5, 2⟩ ⟨5, 3⟩ ≠ smallerPreFix ⟨5, 3⟩ ⟨5, 2⟩ := by decide
 
 end PV.C17
